@@ -219,26 +219,26 @@ impl<T: Clone> WithSpec<T> {
     ) {
         if self.val.is_some() {
             // We already have a value, so need to check.
-            if self.important && !important {
-                // important takes priority over not important.
-                return;
-            }
-            // importance is the same.  Next is checking the origin.
-            {
-                use StyleOrigin::*;
-                match (self.origin, origin) {
-                    (Agent, Agent) | (User, User) | (Author, Author) => {
-                        // They're the same so continue the comparison
-                    }
-                    (mine, theirs) => {
-                        if (important && theirs > mine) || (!important && mine > theirs) {
-                            return;
-                        }
-                    }
+            if self.important != important {
+                // important takes priority over not important, whatever
+                // the origin or specificity.
+                if self.important {
+                    return;
                 }
-            }
-            // We're now from the same origin an importance
-            if specificity < self.specificity {
+            } else if self.origin != origin {
+                // Same importance: the origin decides.  Later origins win for
+                // normal declarations, earlier ones for !important.
+                let keep_mine = if important {
+                    origin > self.origin
+                } else {
+                    self.origin > origin
+                };
+                if keep_mine {
+                    return;
+                }
+            } else if specificity < self.specificity {
+                // Same origin and importance: higher specificity wins, and the
+                // later declaration wins ties.
                 return;
             }
         }
